@@ -118,6 +118,12 @@ def r15b(ctx):
                     forms.add((l, op, r))
             ok = forms == {(lo, "LtE", rp), (rp, "Lt", hi)}
     ctx.check(ok, "R15b", c, "shell i is lower_i <= r < upper_i over consecutive boundary pairs (a partition of [0, R))", u(gens[0]) if gens else "", key_detail="half-open shells")
+    cname = next((k for k, v in env.items() if any(v is g_ or (is_call(v, func="list") and v.args and v.args[0] is g_) for g_ in gens)), None)
+    edits = [n for n in ast.walk(fn) if cname and ((isinstance(n, (ast.Assign, ast.AugAssign)) and any(isinstance(t_, ast.Subscript) and u(t_.value) == cname
+                                                                                                    for t_ in (n.targets if isinstance(n, ast.Assign) else [n.target])))
+                                                    or (isinstance(n, ast.Call) and isinstance(n.func, ast.Attribute) and u(n.func.value) == cname and n.func.attr in ("append", "insert", "extend", "pop"))
+                                                    or (isinstance(n, ast.AugAssign) and u(n.target) == cname))]
+    ctx.check(not edits, "R15b", c, "the shell conditions are used as built (no condition widened or replaced afterwards)", "; ".join(u(x)[:100] for x in edits), key_detail="conditions edited")
     r = returns(fn)
     ok = len(r) == 1 and is_call(r[0].value, func="np.piecewise") and len(r[0].value.args) == 3 and u(r[0].value.args[0]) == f"{rp} / self.earth_radius" \
         and u(r[0].value.args[2]) == "self.densities"
@@ -162,6 +168,12 @@ def r15d(ctx):
     dist = env.get("distance")
     ok = dist is not None and NF().nf(dist).equals(NF().nf(parse_expr("-dot_prod + np.sqrt(discriminant)")))
     ctx.check(ok, "R15d", c, "distance to the exit point is the far root -e.d + sqrt(disc)", u(dist) if dist is not None else "", key_detail="distance")
+    for nm in ("dot_prod", "discriminant", "distance", "ts", "rhos", "rs"):
+        sts = [n for n in ast.walk(fn) if isinstance(n, (ast.Assign, ast.AugAssign)) and any(isinstance(m, ast.Name) and m.id == nm and isinstance(m.ctx, ast.Store)
+                                                                                            for t_ in (n.targets if isinstance(n, ast.Assign) else [n.target]) for m in ast.walk(t_))]
+        if len(sts) > 1:
+            ctx.bad("R15d", c, f"`{nm}` is bound once: the value the rule reads is the value the integral uses", "; ".join(u(x)[:80] for x in sts), key_detail=f"rebinding {nm}",
+                    loc=ctx.loc("pyrex.earth_model", sts[1]))
     ts = env.get("ts")
     ok = ts is not None and is_call(ts, func="np.linspace") and [u(a) for a in ts.args[:2]] == ["0", "1"] and not kwargs_of(ts).get("endpoint")
     ctx.check(ok, "R15d", c, "the chord parameter runs over linspace(0, 1, n) including both ends", u(ts) if ts is not None else "", key_detail="parameter grid")
@@ -234,6 +246,10 @@ def run(ctx):
 
 SELFTEST = {
     "faults": [
+        {"name": "exit distance clamped to the chord length", "file": "pyrex/earth_model.py", "old": "        distance = -dot_prod + np.sqrt(discriminant)\n",
+         "new": "        distance = -dot_prod + np.sqrt(discriminant)\n        distance = min(distance, 2*np.sqrt(discriminant))\n", "rule": "R15d"},
+        {"name": "outermost shell widened by isclose", "file": "pyrex/earth_model.py", "old": "        return np.piecewise(r/self.earth_radius,", "new": "        conditions[-1] = conditions[-1] | np.isclose(r, self.earth_radius)\n        return np.piecewise(r/self.earth_radius,",
+         "rule": "R15b"},
         {"name": "radius dropped from the table", "file": "pyrex/earth_model.py", "old": "radii = (1.2215e6, 3.4800e6,", "new": "radii = (3.4800e6,", "rule": "R15a"},
         {"name": "<= upper bound", "file": "pyrex/earth_model.py", "old": "(lower<=r) & (r<upper)", "new": "(lower<=r) & (r<=upper)", "rule": "R15b"},
         {"name": "direction not normalized", "file": "pyrex/earth_model.py", "old": "        direction = normalize(direction)\n", "new": "        direction = np.array(direction)\n", "rule": "R15c"},
